@@ -2,6 +2,8 @@ import DcVerif.Model.CausalGraph
 import DcVerif.Props.C08Gen
 import DcVerif.Spec.ShortestPath
 import DcVerif.Spec.ShortestPathFW
+import DcVerif.Props.C10
+import DcVerif.Lemmas.ShortestPath
 import DcVerif.Lemmas.CausalGraph
 /-! # The storage half of the causal-graph model is the ultragraph model (add-only histories)
 
@@ -364,6 +366,25 @@ theorem c01store_walks (enc : CausalGraph.Node → Nat) (ops : List CausalGraph.
     FW.Walk (CausalGraph.weight (CausalGraph.build ops)) u v is c ↔
       Spec.ShortestPath.Walk (Spec.ShortestPath.weights (Model.UGraph.abs (C08Gen.genRun Model.UGraph.init (ops.map (toU enc))).1)) u v is c := by
   rw [walk_iff, c01store_weights enc ops]
+
+open Spec.ShortestPath in
+/-- **C10's minimum is C15's minimum.** A path the driver of C10 accepts (`isMinPath` over the causal-graph model, start ≠ stop) is, on
+    the graph the generated ultragraph mutators reach on the same history, a real `Path` of minimum total weight in the sense of C15 —
+    the statement C15's proved oracle decides for `astar`'s answer -/
+theorem c10_accepted_is_c15_minimum (enc : CausalGraph.Node → Nat) (ops : List CausalGraph.Op) (s t : Nat) (p : List Nat)
+    (hst : s ≠ t)
+    (h : CausalSpec.isMinPath (CausalGraph.build ops) (CausalSpec.table (CausalGraph.build ops)) s t p = true) :
+    let u := (C08Gen.genRun Model.UGraph.init (ops.map (toU enc))).1
+    ∃ c, Path (Model.UGraph.abs u) s t p c ∧ ∀ q c', Path (Model.UGraph.abs u) s t q c' → c ≤ c' := by
+  intro u
+  obtain ⟨is, c, hp, hwalk, hmin⟩ := C10.accepted_path_minimal (CausalGraph.build ops) (CausalGraph.wf_build ops) s t p h
+  subst hp
+  have hwf := C08Gen.c08gen_reachable_wf (ops.map (toU enc))
+  refine ⟨c, walk_path _ ((c01store_walks enc ops s t is c).1 hwalk), ?_⟩
+  intro q c' hq
+  rcases path_walk (Model.UGraph.abs u) hwf.edgesOk.nodup hq with ⟨_, hst', _⟩ | ⟨js, _, hw⟩
+  · exact absurd hst' hst
+  · exact hmin js c' ((c01store_walks enc ops s t js c').2 hw)
 
 /-- non-vacuity: root, two nodes, an accepted edge, a refused duplicate and a refused edge to an absent node -/
 example :
